@@ -113,7 +113,24 @@ def run_check(prop: str, tier: str, seed: int) -> int:
         tb = traceback.format_exc()
         print(tb, file=sys.stderr)
         ctx.obligation("harness run completed", False, tb[-2000:], kind="harness")
-    return core.finish(ctx, m.META, getattr(m, "search", None))
+    def widen(c: core.Ctx):
+        """failing-input search after a broken tie: re-run the property's correspondence + probes on the thorough lattice
+        with a different seed and merge what it finds (DESIGN section 1, verdict rule)"""
+        c2 = core.Ctx(prop, tier, seed + 1000)
+        c2.searching = True
+        try:
+            m.run(c2)
+        except Exception:
+            c.note("widened search raised: " + traceback.format_exc()[-800:])
+        c.failures.extend(c2.failures)
+        for k, v in c2.probes.items():
+            p = c.probes.setdefault("search:" + k, {"cases": 0, "failures": 0, "nontrivial": 0})
+            for kk in p:
+                p[kk] += v[kk]
+        c.distinct |= c2.distinct
+        c.extra["search_wall_s"] = round(time.time() - c2.t0, 1)
+
+    return core.finish(ctx, m.META, getattr(m, "search", None) or widen)
 
 
 def replay(prop: str, path: str) -> int:
